@@ -1182,6 +1182,64 @@ def tree_names(soup):
                    if isinstance(x, (D.TexCmd, D.TexNamedEnv))})
 
 
+# ----------------------------------------------------------------------------- histories with TexArgs ops
+
+AOP_MATS = ARG_MATS + ['s:' + enc('{z}'), 's:' + enc('[w]'), 'n:' + enc('\\x')]
+
+
+def gen_aop(rng, soup):
+    """One operation on the argument list of a command/environment of the current tree
+    (`aop P <sub> ..`, implementation-only vocabulary, see `Op`/`perform`), or None."""
+    from TexSoup import data as D
+    targets, _ = enum_tree(soup)
+    named = [t for t in targets if isinstance(t[1], (D.TexCmd, D.TexNamedEnv))]
+    if not named:
+        return None
+    path, x = rng.choice(named)
+    p, n = show_path(path), len(x.args)
+    sub = rng.choice(['app', 'app', 'ext', 'ins', 'ins', 'pop', 'pop', 'rem', 'rev', 'rs', 'clr', 'sl', 'perm'])
+    if sub == 'app':
+        return 'aop %s app %s' % (p, rng.choice(AOP_MATS))
+    if sub == 'ext':
+        return 'aop %s ext %s' % (p, ','.join(rng.choice(AOP_MATS) for _ in range(rng.randint(1, 3))))
+    if sub == 'ins':
+        return 'aop %s ins %d %s' % (p, rng.randint(-n - 1, n + 1), rng.choice(AOP_MATS))
+    if sub == 'pop':
+        return 'aop %s pop %d' % (p, rng.randint(-n - 1, n))
+    if sub == 'rem':
+        return ('aop %s rem %d' % (p, rng.randrange(n))) if n else ('aop %s rev' % p)
+    if sub == 'sl':
+        i = rng.randint(0, n)
+        return 'aop %s sl %d %d' % (p, i, rng.randint(i, n))
+    if sub == 'perm':
+        idx = rng.sample(range(n), rng.randint(0, n))
+        return 'aop %s perm %s' % (p, ','.join(map(str, idx)) or '_')
+    return 'aop %s %s' % (p, sub)
+
+
+def step_variant(k, op):
+    return zlib.crc32(('%d/%s' % (k, op)).encode()) & 1
+
+
+def gen_history(rng, source, n, aop_share=0.2):
+    """Like gen_ops, with a share of TexArgs operations (`aop`); the tree is tracked through
+    `perform`."""
+    T = common.impl()
+    soup = T.TexSoup(source)
+    ops = []
+    for k in range(n):
+        op = gen_aop(rng, soup) if rng.random() < aop_share else None
+        op = op or gen_op(rng, soup)
+        ops.append(op)
+        try:
+            P = Op(op)
+            if resolve(soup, P)[0] != 'skip':
+                perform(soup, P, step_variant(k, op))
+        except Exception:
+            pass
+    return ops
+
+
 if __name__ == '__main__':
     drv = sys.argv[1] if len(sys.argv) > 1 else None
     rep = selftest(drv)
